@@ -67,8 +67,8 @@ func (live) Units(tier string) int {
 func (live) Describe() core.EngineInfo {
 	return core.EngineInfo{
 		Level: "exploration",
-		Rule: "a case is one live-coding session on one VM: a generated versioned program (1-3 packages, 2-6 versions, functions (a quarter of them variadic), methods, initialised variables, never-edited struct types whose printed shape is observed; captured function values, bound methods, struct-field functions and instances), " +
-			"an editor saving entity files atomically, torn, spliced or deleting them (also between the disk operations of a running Load), reload commands and REPL redefinitions delivered at the top level or at a seeded yield inside main's loop, inside a sort comparator, or inside init of the package being loaded, " +
+		Rule: "a case is one live-coding session on one VM: a generated versioned program (1-3 packages, 2-6 versions, functions (a quarter of them variadic), result-less procedures whose versions may be empty, methods (also with one parameter, also versions differing in a field operand only), variables initialised from constants, from later-declared functions, with zero or with nil (then holding a host object), empty non-nil containers, never-edited struct types whose printed shape is observed; captured function values, bound methods, struct-field functions and instances), " +
+			"an editor saving entity files atomically, torn, spliced or deleting them (also between the disk operations of a running Load), reload commands (whole program, one file, one library package under equivalent spellings of its path), saves that fail at run time, and REPL redefinitions delivered at the top level or at a seeded yield inside main's loop, inside a sort comparator, or inside init of the package being loaded, " +
 			"disk faults during loads, then a final clean save and reload. Judged against a version-vector reference model that is set-valued after failed, overlapping or damaged loads. " +
 			"non-trivial = a torn/spliced/mixed-version snapshot was served, a disk fault fired, or a reload/REPL line landed at depth >= 1; distinct = sequence of (step kind, depth, outcome, number of entities whose version set changed)",
 		Real:       []string{"goatlang loader, parser, compiler+optimizer, VM (GLOBALFUNC, GLOBALZERO, GLOBALSTRUCT, addMethod, newMethod, Yield), via New/Load/Eval/Call/Set"},
